@@ -35,6 +35,7 @@ mod c17;
 mod c18;
 mod c19;
 mod hs;
+mod dirrt;
 
 use util::*;
 
@@ -74,6 +75,9 @@ fn run_c15(out: &mut Out, tier: &str, rng: &mut Rng) {
     c15::run(out, tier, rng);
     // the consumer at the end of the bus: an accepted command reaches the units (heard or silent) of the real authority
     authgen::run_c01_auth(out, tier, rng);
+    // the producer in front of the bus that is not a client: the real Director under the real runtime (its commands reach the
+    // network's command task, also after its signal receiver was overrun and the runtime re-entered it)
+    c09::run_runtime(out, tier, rng);
     out.rule.push_str("; consumer side: the real NetworkAuthority with hydraulic units whose timeouts are absent / expired / far away handles every accepted motion command (frames to every unit at acceptance and on the following cycles)");
 }
 
@@ -90,6 +94,24 @@ fn run_c18(out: &mut Out, tier: &str, rng: &mut Rng) {
 fn run_c20(out: &mut Out, tier: &str, rng: &mut Rng) {
     authgen::run_c20(out, tier, rng);
     authgen::run_request_pages(out, tier, rng);
+    c16::daemon_c20(out, tier, rng);
+}
+
+fn run_c05(out: &mut Out, tier: &str, rng: &mut Rng) {
+    c05::run(out, tier, rng);
+    // "the control loop is unaffected": long bursts of well-formed frames written back to back by one client, through the
+    // real session, the real command channel and the real command task of every network: the newest commands are still
+    // handled afterwards
+    for networks in 1..=2usize {
+        for burst in [1usize, 8, 15, 16, 17, 18, 33, 64] {
+            c15::via_session(out, networks, burst);
+        }
+    }
+}
+
+fn run_c09(out: &mut Out, tier: &str, rng: &mut Rng) {
+    c09::run(out, tier, rng);
+    c09::run_runtime(out, tier, rng);
 }
 
 fn run_c10(out: &mut Out, tier: &str, rng: &mut Rng) {
@@ -101,6 +123,7 @@ fn run_c06(out: &mut Out, tier: &str, rng: &mut Rng) {
     drv::run_c06(out, tier, rng);
     authgen::run_c06_auth(out, tier, rng);
     authgen::run_c06_requests(out, tier, rng);
+    authgen::run_c06_sources(out, tier, rng);
     out.rule.push_str("; authority level: raw can_frames with every DLC 0..8 injected into the real NetworkAuthority::recv on the emulated bus, followed by a cycle and commands whose frames must still appear");
 }
 
@@ -125,12 +148,12 @@ fn main() {
         "C02" => run_c02,
         "C03" => c03::run,
         "C04" => c04::run,
-        "C05" => c05::run,
+        "C05" => run_c05,
         "C14" => run_c14,
         "C06" => run_c06,
         "C07" => c07::run,
         "C08" => run_c08,
-        "C09" => c09::run,
+        "C09" => run_c09,
         "C10" => run_c10,
         "C11" => run_c11,
         "C19" => c19::run,
